@@ -144,4 +144,7 @@ def run(rep):
     bm = lib.merge_compare_sites(F[N + 'bad_merge_unsorted'])
     gm = lib.merge_compare_sites(F[N + 'good_merge_sorted'])
     ctl('merge-shaped comparison needs sorted inputs', bool(bm) and not all(x[3] and x[4] for x in bm), bool(gm) and all(x[3] and x[4] for x in gm))
+    bb_ = lib.order_assuming_calls(F[N + 'bad_bisect'])
+    gb_ = lib.order_assuming_calls(F[N + 'good_bisect'])
+    ctl('order-assuming call needs a sort in the function', bool(bb_) and not any(x[2] for x in bb_), bool(gb_) and all(x[2] for x in gb_))
     return results
